@@ -1,6 +1,7 @@
 package engine
 
 import (
+	"os"
 	"fmt"
 	"go/types"
 	"sort"
@@ -145,6 +146,7 @@ type Engine struct {
 	clockPinned bool
 	fmtLenient  bool
 	usedClock   bool
+	lastFn      string
 	gzWriters   map[*Backing]*gzW
 	gzReaders   map[*Backing]*gzR
 	gzSpin      int
@@ -377,7 +379,12 @@ func (e *Engine) refreshModel() {
 
 func (e *Engine) pushTaken(d uint64) { e.taken = append(e.taken, d) }
 
+var DebugForks = os.Getenv("GOSYM_DEBUG_FORKS") != ""
+
 func (e *Engine) emitAlt(d uint64, m Model) {
+	if DebugForks {
+		fmt.Printf("FORK at %s (depth %d)\n", e.lastFn, len(e.taken))
+	}
 	alt := make([]uint64, len(e.taken)+1)
 	copy(alt, e.taken)
 	alt[len(e.taken)] = d
